@@ -58,6 +58,45 @@ CLAIMS["C15"] = (
     "TypeVar/ParamSpec/Callable/TypeAlias forms are outside the modelled grammar.",
     "DESIGN.md section 5 C15", TECH)
 
+LOADNOTE = ("Trusted: Coq kernel, renderers, generator; int()/float() parsing restricted to sign+ASCII digits and floats to "
+            "integer-valued ones (generators stay inside); user-supplied loaders enter the theorems as an arbitrary function "
+            "U with the explicit hypothesis that they raise LoadError only. Model = Model/Load.v (scalars, Literal, iterables "
+            "incl. abstract collections, fixed tuples, dict, Optional, Union; 3 debug modes x 2 coercion modes written "
+            "separately as in the library, full error trees). ")
+CLAIMS["C06"] = (
+    "Proof: load_is_spec - each of the three separately written mode interpreters computes the same mode-independent "
+    "specification and raises LoadError only, for every type, datum and coercion mode (induction on the type with one "
+    "specification lemma per loop); hence C06_modes_agree and failure-in-one-is-failure-in-all. Tied to the code by "
+    "running every generated case under DISABLE/FIRST/ALL on library and model (complete error trees compared) plus a "
+    "direct three-way comparison of the library's modes (acceptance, value, single error among ALL's errors).",
+    LOADNOTE + "Partial: 'the single error under DISABLE/FIRST is among those collected under ALL' is checked by the "
+    "direct oracle, not proved; model dumpers of models are covered by C03's check. One defect repaired (tuple from "
+    "one-shot iterator).", "DESIGN.md section 5 C06", TECH)
+CLAIMS["C04"] = (
+    "Proof: C04_only_load_error - for every type of the fragment, datum, debug mode and coercion mode the outcome is a "
+    "value or a LoadError tree, provided user loaders raise LoadError only (so a non-LoadError can only come from user "
+    "code); C04_scalar_handlers_cover_constructor_errors over the except-clause table regenerated from the source each "
+    "run. Tied to the code by correspondence with hostile data and a raising user loader, and by a direct oracle over "
+    "37 builtin scalar types + 10 optional providers, bare and nested 6 ways, x ~100 hostile data x 6 configurations.",
+    LOADNOTE + "Exception ranges of stdlib constructors outside the fragment are established by running them on the "
+    "hostile pool. RecursionError on pathological depth is out of scope. Eight defects repaired in /repo.",
+    "DESIGN.md section 5 C04", TECH)
+CLAIMS["C07"] = (
+    "Proof: strict acceptance implies lax acceptance for every type and datum across any two debug modes; equal value "
+    "when the type has no union; strict int/float/str/bool/None accept exactly their documented origins; strict "
+    "iterables and fixed tuples exclude str and Mapping; an int Literal does not take a bool; the exact-type tests "
+    "extracted from the source equal the table parsed from the documentation and the model follows them "
+    "(tables regenerated every run). Tied by pairwise strict/lax runs on library and model, with a direct oracle.",
+    LOADNOTE, "DESIGN.md section 5 C07", TECH)
+CLAIMS["C02"] = (
+    "Proof: characterisation theorems of the loaders (union sound / complete / fails iff all fail; iterable, fixed tuple, "
+    "dict, Literal, Optional, None rules as iff statements), abstract collection -> minimal concrete type, Mapping -> dict "
+    "(tables regenerated from the source). Tied by correspondence on arbitrary data in every spelling incl. an exhaustive "
+    "depth-1 block; dumpers by correspondence with Model/Dump.v incl. the union dumper's MRO dispatch over a user class "
+    "hierarchy with a diamond; bytes-like types against a stdlib base64 reference.",
+    LOADNOTE + "Dumpers and base64 are tied by correspondence / reference only (no theorem yet beyond the model). One "
+    "defect repaired (ABCProxy).", "DESIGN.md section 5 C02", TECH)
+
 NOT_YET = "check not built yet in this session (DESIGN.md section 10 build order); not claimed until its model, theorems and correspondence exist"
 
 
